@@ -108,7 +108,7 @@ ASTRAL = ["\U0001F600", "\U0001D538", "\U00020000"]
 TEXT_ALPHA = list("abcxyzABZ019 _-.,;:*#%/()é µΩ中") + ["ß", "ø", "'", '"', "&", "<", ">", "\t", "\n"] + ASTRAL + \
     ["\x85", "\u2028", "\u2029", "\ufeff"]       # line breaks of str.splitlines() that XML keeps, a BOM inside a value
 NAME_ALPHA = list("abcdxyT01_- é") + ASTRAL
-UNITS_NUM = ["-", "m", "kg", "mm", "°C", "m/s", "1/s", "%", "N m", "Text", "ONOFF", "µm", "\U0001D538m", "\U00020000"]
+UNITS_NUM = ["-", "m", "kg", "mm", "°C", "m/s", "1/s", "%", "N m", "Text", "ONOFF", "µm", "KG", "Kg", "M", "\U0001D538m", "\U00020000"]
 SHEET_NAMES = ["Sheet1", "data", "in put", "Tab_2", "résumé", "A", "x1", "sheet one", "Ωmega", "out", "in", "input_2",
                "123", "a.b", "tab-3", "S\U0001F600\U0001D538", " x ", "lead ", " tr ail"]
 TEXT_FIXED = ["ratio a:b", "12:30", "C:\\data", "x: y", "a:b:c", "t 1:2 ", "a\nb", "a\tb", " lead\n", "x\n\ny", "-", "nan", "None", "1.5", "12", "k:", "**x", ":a", " u ", "x" * 40, "TRUE", "2020-01-02", "a=b", "é µ", "\U0001F600", "x\U00020000y\U0001D538", "\ufeffbom", "a\x85b", "a\u2028b",
@@ -187,7 +187,21 @@ def rand_text(rng, first_col=False):
     return "x"
 
 
+def case_variant(rng, base):
+    """a different name that differs from `base` only in letter case or Unicode normal form (or None)"""
+    import unicodedata
+    cands = [base.swapcase(), base.upper(), base.lower(), base.title(), unicodedata.normalize("NFD", base),
+             unicodedata.normalize("NFC", base), base.replace("ss", "ß"), base.replace("ß", "ss")]
+    cands = [c for c in cands if c != base]
+    return rng.choice(cands) if cands else None
+
+
 def rand_name(rng, used, no_marker):
+    if used and rng.random() < 0.25:
+        # names that differ only in letter case / normal form are different names
+        v = case_variant(rng, rng.choice(sorted(used)))
+        if v and v not in used and text_ok(v) and v == v.strip() and not (no_marker and classify_py(v)):
+            return v
     for _ in range(100):
         n_chars = rng.choice(LONG_LENGTHS[:7]) if rng.random() < 0.05 else rng.randint(1, 5)
         s = "".join(rng.choice(NAME_ALPHA) for _ in range(n_chars)).strip()
@@ -307,6 +321,11 @@ def gen_sheets(rng):
         for _ in range(rng.choice([0, 1, 1, 2, 2, 3])):
             tabs.append(gen_table(rng, k))
             k += 1
+        if len(tabs) >= 2 and rng.random() < 0.25:
+            # two tables of one sheet whose names differ only in letter case / normal form
+            v = case_variant(rng, tabs[0]["name"])
+            if v is not None and not (v.startswith("*") or v.endswith("*")) and all(char_ok(c) for c in v):
+                tabs[1]["name"] = v
         sheet = {"name": s, "tables": tabs}
         # the form in which the sheet's tables are handed to write_excel (same workbook expected for every form)
         forms = ["list", "list", "tuple", "generator", "iter", "map"] + (["bare", "bare"] if len(tabs) == 1 else [])
@@ -1054,7 +1073,8 @@ def run(tier, seed, model_ok, translator, search=False):
     out = Outcome()
     out.rule = ("random sheet maps (1-3 sheets, 0-3 Excel-well-formed tables each: text/onoff/datetime/float/int "
                 "columns, 0-4 columns, 0-5 rows, both orientations, NaN/NaT, unicode; 30% of the tables with >= 2 columns are "
-                "built in another column order, consulted once and re-arranged in place on t.df before writing) x argument form {list, tuple, generator, iterator, map, bare "
+                "built in another column order, consulted once and re-arranged in place on t.df before writing; a quarter of "
+                "the later column names / second table names are case or normal-form variants of an earlier one) x argument form {list, tuple, generator, iterator, map, bare "
                 "Table; per sheet or as the whole argument} x styles {False, True, 4 custom "
                 "dicts} x sep_lines 1..3 x {path, BytesIO} x sheet_name_pattern; real write_excel -> read_excel; "
                 "non-trivial = at least one table with a column; distinct by sheet map and settings")
@@ -1207,7 +1227,11 @@ def fixed_cases(seed):
     # first-column text with a colon in the middle: no marker, the block must not end there
     rcol = tab("rc", False, [col("what", "text", "text", ["plain", "ratio a:b", "12:30", "C:\\data", "x: y", "last"]),
                              col("v", "num", "m", ["1.0", "2.0", "3.0", "4.0", "5.0", "6.0"])])
-    shapes = [[rcol], [rh], [th, rh], [z], [zt], [r0], [t0], [r], [t], [z, z], [zt, z], [z, zt], [r, z], [z, r], [t, z, t0, r0], [r0, t0, zt, r, t1],
+    cv = tab("Case", False, [col("Mass", "text", "text", ["a", "b"]), col("mass", "num", "kg", ["1.0", "2.0"]),
+                             col("MASS", "num", "KG", ["3.0", "nan"]), col("é", "onoff", "onoff", [True, False]),
+                             col("e\u0301", "num", "Kg", ["4.5", "5.5"])])
+    cvt = dict(cv, name="case", transposed=True)
+    shapes = [[cv, cvt], [rcol], [rh], [th, rh], [z], [zt], [r0], [t0], [r], [t], [z, z], [zt, z], [z, zt], [r, z], [z, r], [t, z, t0, r0], [r0, t0, zt, r, t1],
               [t1], [t1, z], []]
     cases = []
     for i, tabs in enumerate(shapes):
